@@ -367,10 +367,10 @@ theorem C03_recreate_same (cfg : Cfg) (hd : HD K P) (root : K) (pre ops : List (
 -- ---------------------------------------------------------------------------------------------------------
 -- the F3 defect (fixed in the official tree by fd5efc1) and non-vacuity
 
-def demoHD : HD (List Nat) (List Nat) :=
+def demoHD03 : HD (List Nat) (List Nat) :=
   { child := fun k i => some (k ++ [i]), neuter := id, pubChild := fun p i => some (p ++ [i]) }
 
-theorem demoHD_lawful : demoHD.Lawful := by intro k i _; rfl
+theorem demoHD03_lawful : demoHD03.Lawful := by intro k i _; rfl
 
 /-- extend while unlocked, look the address up, ask for its key -/
 def demoExtend : List (Op (List Nat) (List Nat)) :=
@@ -379,20 +379,20 @@ def demoExtend : List (Op (List Nat) (List Nat)) :=
 /-- **F3 (unfixed tree).**  With the inverted watch-only test an address created by `ExtendExternalAddresses`
     while unlocked has no private key: `PrivKey()` fails with `ErrWatchingOnly` although the wallet is unlocked. -/
 theorem C03_can_sign_counterexample_f3 :
-    (match (step { f3 := true } demoHD (run { f3 := true } demoHD demoExtend).1 (.privKey 1)).2.1 with
+    (match (step { f3 := true } demoHD03 (run { f3 := true } demoHD03 demoExtend).1 (.privKey 1)).2.1 with
       | .err .watchOnly => true | _ => false) = true := by decide
 
 /-- on the fixed tree the same history returns the key, and it is the key of the address's public key -/
-example : (match (step {} demoHD (run {} demoHD demoExtend).1 (.privKey 1)).2.1 with
+example : (match (step {} demoHD03 (run {} demoHD03 demoExtend).1 (.privKey 1)).2.1 with
       | .key (.hd k) => k == [0, 84 + H, 0 + H, 0 + H, 0, 1] | _ => false) = true := by decide
 
 /-- derived while locked, then unlocked: the key is there (derive-on-unlock) -/
-example : (match (step {} demoHD (run {} demoHD
+example : (match (step {} demoHD03 (run {} demoHD03
       [.create [0], .next (84, 0) 0 2 false 1, .unlock 0]).1 (.privKey 2)).2.1 with
       | .key (.hd k) => k == [0, 84 + H, 0 + H, 0 + H, 0, 1] | _ => false) = true := by decide
 
 /-- after a restart the looked-up address has its key too -/
-example : (match (step {} demoHD (run {} demoHD
+example : (match (step {} demoHD03 (run {} demoHD03
       [.create [0], .next (49, 0) 0 1 true 1, .restart, .unlock 0,
        .lookup (49, 0) (.key (.hd [0, 49 + H, 0 + H, 0 + H, 1, 0]) 0 true) 9]).1 (.privKey 9)).2.1 with
       | .key (.hd k) => k == [0, 49 + H, 0 + H, 0 + H, 1, 0] | _ => false) = true := by decide
